@@ -16,7 +16,6 @@ import (
 	"errors"
 	"fmt"
 	"math/big"
-	"sort"
 	"strings"
 	"time"
 
@@ -720,10 +719,4 @@ func canonJSON(s string) string {
 	}
 	b, _ := json.Marshal(m)
 	return string(b)
-}
-
-func sortedCopy(s []string) []string {
-	c := append([]string(nil), s...)
-	sort.Strings(c)
-	return c
 }
